@@ -174,7 +174,7 @@ structure Store where
   /-- live handles with the array they hold -/
   handles : List (Str × List Str) := []
   ctx : Str := []
-deriving Repr, Inhabited
+deriving DecidableEq, Repr, Inhabited
 
 def maxLen : List (Str × List Str) → Nat
   | [] => 0
